@@ -246,6 +246,39 @@ fn totals_check() -> i32 {
             }
         }
     }
+    // ---- the same through compile_from_options: a WARNING recorded while resolving the files (a path listed twice)
+    // must not stop parsing / patching / validation; an unreadable path (an ERROR) must
+    {
+        let base = std::env::var("VERIF_SCRATCH").map(std::path::PathBuf::from).unwrap_or_else(|_| std::env::temp_dir());
+        let dir = base.join(format!("slicec_totals_{}", std::process::id()));
+        let _ = std::fs::remove_dir_all(&dir);
+        std::fs::create_dir_all(&dir).unwrap();
+        let bad = dir.join("bad.slice");
+        std::fs::write(&bad, "module A\ncompact struct C {}\n").unwrap();
+        let bad_s = bad.to_string_lossy().to_string();
+        let missing = dir.join("missing.slice").to_string_lossy().to_string();
+        for (name, sources, must, must_not) in [
+            ("a path listed twice (DuplicateFile warning): the file is still compiled and its error reported", vec![bad_s.clone(), bad_s.clone()], vec!["DuplicateFile", "E018"], vec![]),
+            ("a missing path (I/O error): nothing is parsed", vec![bad_s.clone(), missing.clone()], vec!["E001"], vec!["E018"]),
+        ] {
+            rep.case(true, || name.to_owned());
+            let out = std::panic::catch_unwind(move || {
+                let mut options = SliceOptions::default();
+                options.sources = sources;
+                let state = slicec::compile_from_options(&options);
+                state.into_diagnostics(&options).iter().map(|d| d.code().to_owned()).collect::<Vec<_>>()
+            });
+            match out {
+                Err(_) => rep.counterexample(name, "diagnostics", "PANIC"),
+                Ok(codes) => {
+                    let missing_c: Vec<&&str> = must.iter().filter(|c| !codes.iter().any(|x| x == **c)).collect();
+                    let extra: Vec<&&str> = must_not.iter().filter(|c| codes.iter().any(|x| x == **c)).collect();
+                    if !missing_c.is_empty() || !extra.is_empty() { rep.counterexample(name, &format!("codes including {must:?} and none of {must_not:?}"), &format!("{codes:?}")); }
+                }
+            }
+        }
+        let _ = std::fs::remove_dir_all(&dir);
+    }
     rep.finish()
 }
 
